@@ -327,7 +327,7 @@ def _case(draw):
     case['funds'] = funds
     case['decoys'] = draw(st.lists(st.sampled_from(['param', 'underscore', 'int-quark', 'suffix']), max_size=2, unique=True))
     case['ord'] = draw(st.lists(st.integers(0, 99), min_size=8, max_size=8))
-    case['spawn'] = draw(st.integers(0, 15)) == 15
+    case['spawn'] = draw(st.integers(0, 31)) == 31
     return case
 
 
@@ -490,14 +490,19 @@ def build(case):
             sym = 'foo_%s_get_type' % cl['stem']
             gt_func(sym)
             parent_c = cl['chain'][0] if cl['chain'] else 'GTypeInstance'
-            if parent_c in HIDDEN or parent_c == 'FooHiddenFundamental':
-                foreign.add(parent_c)
             if cl['inst'] is not None:
                 early.append(_fwd(cname))
                 if cl['inst'] == 'full':
                     late.append(('x', _body(cname, [{'name': 'parent_instance', 'type': ty(parent_c, kind='typedef')},
                                                     {'name': 'count', 'type': ty('int')}])))
             pclass = (parent_c + 'Class') if cl['chain'] else 'GTypeClass'
+            if parent_c not in ROOTS and not parent_c.startswith('GT') and parent_c != 'GParam':
+                # by-value members need complete types: whatever the scanned header does not define
+                # comes from a private, unscanned header
+                if cl['inst'] == 'full':
+                    foreign.add(parent_c)
+                if cl['cstruct'] in ('tagged', 'anon'):
+                    foreign.add(pclass)
             _struct_decls(cl, cname, cname + 'Class', cl['cstruct'],
                           {'name': 'parent_class', 'type': ty(pclass, kind='typedef')}, cl['vf'], early, late, cname)
             if cl.get('meth') and cl['inst'] is not None:
@@ -505,8 +510,12 @@ def build(case):
                     if v['first'] == 'inst':
                         late.append(('x', {'d': 'function', 'name': 'foo_%s_%s' % (cl['stem'], v['n']),
                                            'ret': _ret(v), 'params': _vf_params(v, cname)}))
+                taken = set('get_' + v['n'] if False else v['n'] for v in cl['vf'] if v['first'] == 'inst')
                 for p in cl['props'][:2]:
-                    late.append(('x', {'d': 'function', 'name': 'foo_%s_get_%s' % (cl['stem'], p['n'].replace('-', '_')),
+                    acc = 'get_' + p['n'].replace('-', '_')
+                    if acc in taken:
+                        continue
+                    late.append(('x', {'d': 'function', 'name': 'foo_%s_%s' % (cl['stem'], acc),
                                        'ret': ty('int'), 'params': [param('self', _ptr(cname))]}))
             attrs = ''
             if kind == 'classes':
@@ -547,7 +556,13 @@ def build(case):
         idx = sorted(range(len(items)), key=lambda i: (ordk[i % len(ordk)] * 7919 + i * ordk[(i + 3) % len(ordk)]) % 101)
         return [items[i] for i in idx]
 
-    decls = [_fwd(n, file_=None) for n in sorted(foreign)]
+    bodies = set()
+    for _g, d in late:
+        if d['d'] == 'compound' and d.get('fields') is not None:
+            bodies.add(d['typedef'] or d['tag'][1:])
+    fwds = set(d['typedef'] for d in early)
+    decls = [{'d': 'compound', 'kind': 'struct', 'tag': '_' + n, 'typedef': None if n in fwds else n, 'file': None,
+              'fields': [{'name': 'dummy', 'type': ty('int')}]} for n in sorted(foreign - bodies)]
     decls += shuffled(early)
     decls += shuffled([d for g, d in late if g == 'e'])
     decls += shuffled([d for g, d in late if g == 'cb'])
@@ -684,7 +699,7 @@ def _qualifies(v):
 class _InprocDumper(object):
     """Stands in for the `subprocess` module inside giscanner.gdumpparser for most cases: does in-process exactly what
     the shell "introspection binary" of vlib.pipeline does (keep functions.txt, copy the prepared dump to the output
-    path). Spawning /bin/sh costs ~200 ms per case on this VM; cases with case['spawn'] (the grids and ~1 in 16
+    path). Spawning /bin/sh costs ~200 ms per case on this VM; cases with case['spawn'] (the grids and ~1 in 32
     generated ones) still go through the real subprocess."""
     CalledProcessError = subprocess.CalledProcessError
 
@@ -963,7 +978,7 @@ def _grid_cases():
 
 def plan(tier):
     if tier == 'quick':
-        return [{'n': 260, 'grid': i} for i in range(16)]
+        return [{'n': 200, 'grid': i} for i in range(16)]
     return [{'n': 3000, 'grid': i} for i in range(16)]
 
 
